@@ -1433,7 +1433,35 @@ def _exc_of(o):
     return o.get('exc') if isinstance(o, dict) else None
 
 
+_DISAGREED = []         # target lists of the histories on which model and implementation disagreed (bias of `search`)
+
+
 def compare(case, iobs, mobs):
+    d = _compare(case, iobs, mobs)
+    if d and case['targets'] not in _DISAGREED:
+        _DISAGREED.append(case['targets'])
+    return d
+
+
+def search(rng, tier):
+    """failing-input search after a broken proof / correspondence: every history runs in a FRESH interpreter (state leaked
+    by earlier histories of this process cannot mask the failure), the targets that disagreed first"""
+    global _ISOLATE
+    _ISOLATE = True
+    TG = TARGETS()
+    for targets in list(_DISAGREED)[:8]:
+        for _ in range(12):
+            calls = []
+            for _ in range(rng.randint(2, 5)):
+                ti = rng.randrange(len(targets))
+                c = TG[targets[ti]]['gen'](rng)
+                c['t'] = ti
+                calls.append(c)
+            yield _mk(targets, calls, ['search'])
+    yield from generate(rng, 'quick')
+
+
+def _compare(case, iobs, mobs):
     if 'err' in iobs:
         return None
     un = _unmodelled(iobs)
